@@ -157,4 +157,23 @@ theorem childHalo_agree_of (ctA ctB Ha Hb TA TB : List Nat)
     exact Bool.and_comm _ _
   rw [hc]
 
+theorem fst_mem_of_mem_zipIdx : ∀ (l : List Nat) (k : Nat) (x : Nat × Nat), x ∈ l.zipIdx k → x.1 ∈ l
+  | [], _, _, h => by simp at h
+  | a :: as, k, x, h => by
+    simp only [List.zipIdx_cons, List.mem_cons] at h
+    rcases h with rfl | h
+    · simp
+    · exact List.mem_cons_of_mem _ (fst_mem_of_mem_zipIdx as (k + 1) x h)
+
+/-- the child's cells depend only on the child numbers of the parent's own cells -/
+theorem childCells_congr (cells childOf childOf' : List Nat) (ch : Nat)
+    (h : ∀ c ∈ cells, childOf.getD c 0 = childOf'.getD c 0) :
+    childCells cells childOf ch = childCells cells childOf' ch := by
+  unfold childCells
+  apply filterMap_congr'
+  intro x hx
+  obtain ⟨c, i⟩ := x
+  have := h c (fst_mem_of_mem_zipIdx cells 0 (c, i) hx)
+  simp only [this]
+
 end FeatModel.Parti
